@@ -1,7 +1,8 @@
 //@ assume: vstd axioms for u64::leading_zeros (axiom_u64_leading_zeros), pow2 and shift/div lemmas are trusted (vstd library)
+//@ assume: assumed contract: u64::count_ones(x) == pc(x) where pc(n) = n%2 + pc(n/2) (population count; std intrinsic, not verified)
 //@ assume: machine integers are u64 with Verus overflow obligations generated; spec integers are mathematical (nat) and every contract states the u64 range it covers
-//@ assumed_items: 0
-//@ fns: pmmr::peak_map_height, pmmr::bintree_postorder_height, pmmr::is_leaf, pmmr::bintree_rightmost, pmmr::bintree_leftmost, pmmr::bintree_range
+//@ assumed_items: 1
+//@ fns: pmmr::n_leaves, pmmr::insertion_to_pmmr_index, pmmr::pmmr_leaf_to_insertion_index, pmmr::round_up_to_leaf_pos, pmmr::family, pmmr::is_left_sibling, pmmr::peak_map_height, pmmr::bintree_postorder_height, pmmr::is_leaf, pmmr::bintree_rightmost, pmmr::bintree_leftmost, pmmr::bintree_range
 //@ import: use vstd::arithmetic::power2::*;
 //@ import: use vstd::bits::*;
 //@ import: use vstd::std_specs::bits::*;
@@ -205,30 +206,171 @@ proof fn lemma_ht_small(pos: nat)
     lemma_pow2_pos(h);
 }
 
+proof fn lemma_shl2(h: u64)
+    requires h <= 62
+    ensures (2u64 << h) as nat == pow2((h + 1) as nat), (1u64 << h) as nat == pow2(h as nat)
+{
+    lemma2_to64();
+    lemma_pow2_strictly_increases((h + 1) as nat, 64);
+    lemma_pow2_unfold((h + 1) as nat);
+    lemma_pow2_pos(h as nat);
+    lemma_u64_shl_is_mul(2, h);
+    lemma_u64_shl_is_mul(1, h);
+}
+
+// ---------------------------------------------------------------------------------------------
+// peak map: bit (j-1) is set iff the stage-j peak was subtracted
+pub open spec fn loop_map(size: nat, j: nat) -> nat
+    decreases j
+{
+    if j == 0 { 0 }
+    else if size >= psize(j) { pow2((j - 1) as nat) + loop_map((size - psize(j)) as nat, (j - 1) as nat) }
+    else { loop_map(size, (j - 1) as nat) }
+}
+
+// number of leaves at positions strictly before pos, in a perfect tree of height h (pos < tsize(h))
+pub open spec fn lb(pos: nat, h: nat) -> nat
+    decreases h
+{
+    if h == 0 { 0 }
+    else if pos == tsize(h) - 1 { pow2(h) }
+    else if pos < tsize((h - 1) as nat) { lb(pos, (h - 1) as nat) }
+    else { pow2((h - 1) as nat) + lb((pos - tsize((h - 1) as nat)) as nat, (h - 1) as nat) }
+}
+
+proof fn lemma_bmap(j: nat, e: nat)
+    ensures loop_map((tsize(j) - 1 + e) as nat, j) == pow2(j) - 1
+    decreases j
+{
+    lemma_psize(j);
+    if j == 0 {
+        lemma2_to64();
+    } else {
+        lemma_psize((j - 1) as nat);
+        let s = (tsize(j) - 1 + e) as nat;
+        assert(s == 2 * psize(j) + e);
+        assert(s - psize(j) == psize(j) + e);
+        assert(psize(j) + e == tsize((j-1) as nat) - 1 + (e + 1));
+        lemma_bmap((j - 1) as nat, e + 1);
+        lemma_pow2_unfold(j);
+    }
+}
+
+proof fn lemma_m1(pos: nat, j: nat)
+    requires pos < tsize(j)
+    ensures loop_map(pos, j) + (if ht(pos, j) != 0 { 1nat } else { 0nat }) == lb(pos, j),
+            loop_map(pos, j) < pow2(j),
+    decreases j
+{
+    lemma_psize(j);
+    if j == 0 {
+        lemma2_to64();
+    } else {
+        lemma_psize((j - 1) as nat);
+        lemma_pow2_unfold(j);
+        if pos == tsize(j) - 1 {
+            lemma_bmap(j, 0);
+        } else if pos < tsize((j - 1) as nat) {
+            lemma_m1(pos, (j - 1) as nat);
+        } else {
+            lemma_m1((pos - tsize((j - 1) as nat)) as nat, (j - 1) as nat);
+        }
+    }
+}
+
+proof fn lemma_lb_mono(pos: nat, h: nat, big: nat)
+    requires pos < tsize(h), h <= big
+    ensures lb(pos, big) == lb(pos, h)
+    decreases big
+{
+    if big > h {
+        lemma_psize(big); lemma_psize((big-1) as nat); lemma_psize(h);
+        lemma_tsize_mono(h, (big - 1) as nat);
+        lemma_lb_mono(pos, h, (big - 1) as nat);
+    }
+}
+
+proof fn lemma_loop_map_zero(j: nat) ensures loop_map(0, j) == 0 decreases j
+{ if j > 0 { lemma_psize((j-1) as nat); lemma_psize(j); lemma_pow2_pos(j); lemma_pow2_unfold(j); lemma_loop_map_zero((j-1) as nat);
+    if j == 1 { lemma2_to64(); } else { lemma_pow2_strictly_increases(1, j); lemma2_to64(); } } }
+
+proof fn lemma_map_ext(size: nat, k: nat, big: nat)
+    requires size <= psize(k), k <= big
+    ensures loop_map(size, big) == loop_map(size, k)
+    decreases big
+{
+    if big > k {
+        lemma_psize((big - 1) as nat); lemma_psize(k);
+        lemma_tsize_mono(k, (big - 1) as nat);
+        assert(psize(k) < psize(big)) by { lemma_pow2_strictly_increases(k, big); }
+        lemma_map_ext(size, k, (big - 1) as nat);
+    }
+}
+
+proof fn lemma_map_bound(pos: u64)
+    ensures loop_map(pos as nat, 64) <= 0x8000_0000_0000_0000u64
+{
+    lemma_psize(64); lemma_psize(63); lemma2_to64(); lemma_pow2_unfold(64);
+    if (pos as nat) < psize(64) {
+        lemma_m1(pos as nat, 63);
+    } else {
+        lemma_loop_map_zero(63);
+    }
+}
+
+proof fn lemma_shl1_or(pm: u64, b: bool)
+    requires pm < 0x8000_0000_0000_0000u64
+    ensures (pm << 1u64) == 2 * pm, ((pm << 1u64) | 1u64) == 2 * pm + 1
+{
+    assert((pm << 1u64) == mul(2, pm) && ((pm << 1u64) | 1u64) == add(mul(2, pm), 1)) by(bit_vector)
+        requires pm < 0x8000_0000_0000_0000u64;
+}
 //@ extract core/src/core/pmmr/pmmr.rs :: fn peak_map_height
 //@   ensures:
 //@+    r.1 as nat == ht(size as nat, 64),
 //@+    r.1 <= 63,
+//@+    r.0 as nat + (if r.1 != 0 { 1nat } else { 0nat }) == lb(size as nat, 64),
+//@+    r.0 as nat == loop_map(size as nat, 64),
+//@+    r.0 <= 0x8000_0000_0000_0000u64,
 //@   before `return (0, 0);`:
-//@+    proof { lemma_pow2_pos(65); lemma_pow2_strictly_increases(0, 65); lemma2_to64(); lemma_a(0, 64); lemma_psize(64); lemma_loop_zero(64); }
+//@+    proof { lemma_pow2_pos(65); lemma_pow2_strictly_increases(0, 65); lemma2_to64(); lemma_a(0, 64); lemma_psize(64); lemma_loop_zero(64);
+//@+            lemma_m1(0, 64); lemma_loop_map_zero(64); }
 //@   before `let mut peak_size = ALL_ONES`:
 //@+    let ghost size0 = size;
 //@+    let ghost k = lemma_init(size);
 //@+    let ghost mut j: nat = k;
+//@+    proof { lemma2_to64(); }
 //@   loop 1:
 //@+    invariant
-//@+        j <= 64,
+//@+        j <= k <= 64,
 //@+        peak_size as nat == psize(j),
 //@+        loop_h(size as nat, j) == loop_h(size0 as nat, k),
+//@+        peak_map as nat * pow2(j) + loop_map(size as nat, j) == loop_map(size0 as nat, k),
+//@+        (peak_map as nat) < pow2((k - j) as nat),
 //@+    decreases peak_size
 //@   before `peak_map <<= 1;`:
 //@+    proof {
 //@+        lemma_psize(j);
 //@+        if j == 0 { assert(false); }
 //@+        lemma_bv_mask_shr(peak_size, j as u64);
+//@+        lemma2_to64();
+//@+        lemma_pow2_unfold(64);
+//@+        if k - j < 63 { lemma_pow2_strictly_increases((k - j) as nat, 63); }
+//@+        lemma_shl1_or(peak_map, true);
+//@+        lemma_pow2_unfold(j);
+//@+        lemma_pow2_unfold((k - j + 1) as nat);
 //@+    }
+//@+    let ghost pm0 = peak_map;
+//@+    let ghost sz0 = size;
 //@   after `peak_size >>= 1;`:
-//@+    proof { j = (j - 1) as nat; }
+//@+    proof {
+//@+        assert(peak_map as nat * pow2((j - 1) as nat) + loop_map(size as nat, (j - 1) as nat) == pm0 as nat * pow2(j) + loop_map(sz0 as nat, j)) by(nonlinear_arith)
+//@+            requires
+//@+                pow2(j) == 2 * pow2((j - 1) as nat),
+//@+                sz0 >= psize(j) ==> (peak_map as nat == 2 * pm0 as nat + 1 && loop_map(sz0 as nat, j) == pow2((j - 1) as nat) + loop_map(size as nat, (j - 1) as nat)),
+//@+                sz0 < psize(j) ==> (peak_map as nat == 2 * pm0 as nat && loop_map(sz0 as nat, j) == loop_map(size as nat, (j - 1) as nat));
+//@+        j = (j - 1) as nat;
+//@+    }
 //@   before `(peak_map, size)`:
 //@+    proof {
 //@+        lemma_psize(0);
@@ -238,9 +380,418 @@ proof fn lemma_ht_small(pos: nat)
 //@+        lemma_ht_mono(size0 as nat, k, 64);
 //@+        lemma_psize(64); lemma2_to64();
 //@+        lemma_ht_bound(size0 as nat, 64);
+//@+        lemma_m1(size0 as nat, k);
+//@+        lemma_lb_mono(size0 as nat, k, 64);
+//@+        lemma_map_bound(size0);
+//@+        lemma_map_ext(size0 as nat, k, 64);
+//@+        assert(pow2(0) == 1);
+//@+        assert(loop_map(size as nat, 0) == 0);
+//@+        assert(peak_map as nat * 1 == peak_map as nat);
+//@+        assert(peak_map as nat == loop_map(size0 as nat, k));
+//@+        assert(size as nat == ht(size0 as nat, k));
 //@+    }
 //@ end
 //@ canary peak_map_height: r.1 == 0
+
+// ---------------------------------------------------------------------------------------------
+// leaf index <-> position
+pub open spec fn pc(n: nat) -> nat decreases n { if n == 0 { 0 } else { (n % 2) + pc(n / 2) } }
+
+pub assume_specification [u64::count_ones](x: u64) -> (r: u32)
+    ensures r as nat == pc(x as nat);
+
+// position of the n-th leaf (0-based) in a perfect tree of height h (n < 2^h)
+pub open spec fn leaf_pos(n: nat, h: nat) -> nat
+    decreases h
+{
+    if h == 0 { 0 }
+    else if n < pow2((h - 1) as nat) { leaf_pos(n, (h - 1) as nat) }
+    else { tsize((h - 1) as nat) + leaf_pos((n - pow2((h - 1) as nat)) as nat, (h - 1) as nat) }
+}
+
+proof fn lemma_pc_top(a: nat, k: nat)
+    requires a < pow2(k)
+    ensures pc(a + pow2(k)) == pc(a) + 1, pc(a) <= a
+    decreases k
+{
+    lemma2_to64();
+    if k == 0 {
+        assert(a == 0);
+        assert(pc(1) == 1 + pc(0));
+    } else {
+        lemma_pow2_unfold(k);
+        lemma_pow2_pos((k - 1) as nat);
+        let b = a + pow2(k);
+        assert(b % 2 == a % 2 && b / 2 == a / 2 + pow2((k - 1) as nat)) by(nonlinear_arith)
+            requires b == a + 2 * pow2((k - 1) as nat);
+        assert(a / 2 < pow2((k - 1) as nat)) by(nonlinear_arith) requires a < 2 * pow2((k - 1) as nat);
+        lemma_pc_top(a / 2, (k - 1) as nat);
+        assert(pc(b) == b % 2 + pc(b / 2));
+        if a > 0 { assert(pc(a) == a % 2 + pc(a / 2)); }
+        assert(a % 2 + a / 2 <= a) by(nonlinear_arith);
+    }
+}
+
+proof fn lemma_leafpos(n: nat, h: nat)
+    requires n < pow2(h)
+    ensures 2 * n - pc(n) == leaf_pos(n, h), pc(n) <= n
+    decreases h
+{
+    lemma2_to64();
+    if h == 0 {
+        assert(n == 0);
+    } else {
+        lemma_pow2_unfold(h);
+        lemma_psize(h); lemma_psize((h - 1) as nat);
+        if n < pow2((h - 1) as nat) {
+            lemma_leafpos(n, (h - 1) as nat);
+        } else {
+            let m = (n - pow2((h - 1) as nat)) as nat;
+            lemma_leafpos(m, (h - 1) as nat);
+            lemma_pc_top(m, (h - 1) as nat);
+        }
+    }
+}
+
+proof fn lemma_leafpos_inv(n: nat, h: nat)
+    requires n < pow2(h)
+    ensures leaf_pos(n, h) < tsize(h), ht(leaf_pos(n, h), h) == 0, lb(leaf_pos(n, h), h) == n,
+            h > 0 ==> leaf_pos(n, h) < tsize(h) - 1
+    decreases h
+{
+    lemma2_to64();
+    lemma_psize(h);
+    if h > 0 {
+        lemma_pow2_unfold(h);
+        lemma_psize((h - 1) as nat);
+        lemma_pow2_pos(h);
+        if n < pow2((h - 1) as nat) {
+            lemma_leafpos_inv(n, (h - 1) as nat);
+        } else {
+            lemma_leafpos_inv((n - pow2((h - 1) as nat)) as nat, (h - 1) as nat);
+        }
+    }
+}
+
+proof fn lemma_lb_le(pos: nat, h: nat)
+    requires pos < tsize(h)
+    ensures lb(pos, h) <= pow2(h), lb(pos, h) <= pos + 1
+    decreases h
+{
+    lemma2_to64(); lemma_psize(h);
+    if h > 0 {
+        lemma_pow2_unfold(h); lemma_psize((h - 1) as nat); lemma_pow2_pos((h - 1) as nat);
+        if pos == tsize(h) - 1 {
+        } else if pos < tsize((h - 1) as nat) {
+            lemma_lb_le(pos, (h - 1) as nat);
+        } else {
+            lemma_lb_le((pos - tsize((h - 1) as nat)) as nat, (h - 1) as nat);
+        }
+    }
+}
+
+proof fn lemma_leafpos_zero(h: nat) ensures leaf_pos(0, h) == 0 decreases h
+{ if h > 0 { lemma_pow2_pos((h - 1) as nat); lemma_leafpos_zero((h - 1) as nat); } }
+
+// the first leaf at or after pos
+proof fn lemma_round_up(pos: nat, h: nat)
+    requires pos < tsize(h), lb(pos, h) < pow2(h)
+    ensures leaf_pos(lb(pos, h), h) >= pos,
+            ht(pos, h) == 0 ==> leaf_pos(lb(pos, h), h) == pos
+    decreases h
+{
+    lemma2_to64(); lemma_psize(h);
+    if h > 0 {
+        lemma_pow2_unfold(h); lemma_psize((h - 1) as nat); lemma_pow2_pos((h - 1) as nat);
+        if pos == tsize(h) - 1 {
+        } else if pos < tsize((h - 1) as nat) {
+            lemma_lb_le(pos, (h - 1) as nat);
+            if lb(pos, (h - 1) as nat) == pow2((h - 1) as nat) {
+                lemma_leafpos_zero((h - 1) as nat);
+                // a leaf has lb < 2^(h-1) inside its own subtree unless it is ... show ht != 0
+                lemma_lb_full_not_leaf(pos, (h - 1) as nat);
+            } else {
+                lemma_round_up(pos, (h - 1) as nat);
+            }
+        } else {
+            lemma_round_up((pos - tsize((h - 1) as nat)) as nat, (h - 1) as nat);
+        }
+    }
+}
+
+// if all 2^h leaves of the tree are before pos, pos is not a leaf
+proof fn lemma_lb_full_not_leaf(pos: nat, h: nat)
+    requires pos < tsize(h), lb(pos, h) == pow2(h)
+    ensures ht(pos, h) != 0 || h == 0 && false
+    decreases h
+{
+    lemma2_to64(); lemma_psize(h);
+    if h == 0 {
+        assert(lb(pos, 0) == 0);
+        assert(false);
+    } else {
+        lemma_pow2_unfold(h); lemma_psize((h - 1) as nat); lemma_pow2_pos((h - 1) as nat);
+        if pos == tsize(h) - 1 {
+        } else if pos < tsize((h - 1) as nat) {
+            lemma_lb_le(pos, (h - 1) as nat);
+            assert(false);
+        } else {
+            lemma_lb_le((pos - tsize((h - 1) as nat)) as nat, (h - 1) as nat);
+            lemma_lb_full_not_leaf((pos - tsize((h - 1) as nat)) as nat, (h - 1) as nat);
+        }
+    }
+}
+
+//@ extract core/src/core/pmmr/pmmr.rs :: fn n_leaves
+//@   ensures:
+//@+    r as nat == lb(size as nat, 64),
+//@ end
+
+//@ extract core/src/core/pmmr/pmmr.rs :: fn insertion_to_pmmr_index
+//@   requires:
+//@+    nleaf0 < 0x8000_0000_0000_0000u64,
+//@   ensures:
+//@+    r as nat == leaf_pos(nleaf0 as nat, 64),
+//@+    ht(r as nat, 64) == 0, lb(r as nat, 64) == nleaf0 as nat,
+//@   at_start:
+//@+    proof { lemma2_to64(); lemma_pow2_unfold(64); lemma_leafpos(nleaf0 as nat, 64); lemma_leafpos_inv(nleaf0 as nat, 64); }
+//@ end
+
+//@ extract core/src/core/pmmr/pmmr.rs :: fn pmmr_leaf_to_insertion_index
+//@   ensures:
+//@+    ht(pos0 as nat, 64) == 0 ==> r == Some(lb(pos0 as nat, 64) as u64) && lb(pos0 as nat, 64) <= u64::MAX,
+//@+    ht(pos0 as nat, 64) != 0 ==> r.is_none(),
+//@ end
+
+//@ extract core/src/core/pmmr/pmmr.rs :: fn round_up_to_leaf_pos
+//@   requires:
+//@+    pos0 < 0x4000_0000_0000_0000u64,
+//@   ensures:
+//@+    r >= pos0, ht(r as nat, 64) == 0, lb(r as nat, 64) == lb(pos0 as nat, 64),
+//@+    ht(pos0 as nat, 64) == 0 ==> r == pos0,
+//@   at_start:
+//@+    proof { lemma2_to64(); lemma_psize(64); lemma_pow2_unfold(64); lemma_pow2_unfold(63); lemma_lb_le(pos0 as nat, 64); lemma_round_up(pos0 as nat, 64); }
+//@ end
+//@ canary n_leaves: r == 0
+
+// ---------------------------------------------------------------------------------------------
+// parent / sibling in the explicit tree (descending from the root of a perfect tree of height h)
+pub open spec fn is_right(pos: nat, h: nat) -> bool
+    decreases h
+{
+    if h == 0 { false }
+    else if pos == tsize(h) - 1 { false }
+    else if pos < tsize((h - 1) as nat) { is_right(pos, (h - 1) as nat) }
+    else if pos - tsize((h - 1) as nat) == tsize((h - 1) as nat) - 1 { true }
+    else { is_right((pos - tsize((h - 1) as nat)) as nat, (h - 1) as nat) }
+}
+
+// parent of a non-root node: the root if pos is one of its two children, else recurse
+pub open spec fn parent(pos: nat, h: nat) -> nat
+    decreases h
+{
+    if h == 0 { 0 }
+    else if pos == tsize((h - 1) as nat) - 1 || pos == tsize(h) - 2 { (tsize(h) - 1) as nat }
+    else if pos < tsize((h - 1) as nat) { parent(pos, (h - 1) as nat) }
+    else { tsize((h - 1) as nat) + parent((pos - tsize((h - 1) as nat)) as nat, (h - 1) as nat) }
+}
+
+pub open spec fn sibling(pos: nat, h: nat) -> nat
+    decreases h
+{
+    if h == 0 { 0 }
+    else if pos == tsize((h - 1) as nat) - 1 { (tsize(h) - 2) as nat }
+    else if pos == tsize(h) - 2 { (tsize((h - 1) as nat) - 1) as nat }
+    else if pos < tsize((h - 1) as nat) { sibling(pos, (h - 1) as nat) }
+    else { tsize((h - 1) as nat) + sibling((pos - tsize((h - 1) as nat)) as nat, (h - 1) as nat) }
+}
+
+pub open spec fn bit(m: nat, t: nat) -> bool { (m / pow2(t)) % 2 == 1 }
+
+proof fn lemma_bit_add_high(m: nat, t: nat, k: nat)
+    requires t < k
+    ensures bit(pow2(k) + m, t) == bit(m, t)
+{
+    lemma_pow2_adds(t, (k - t) as nat);
+    lemma_pow2_pos(t);
+    lemma_pow2_unfold((k - t) as nat);
+    let a = pow2(t); let c = pow2((k - t - 1) as nat);
+    assert((a * (2 * c) + m) / a == 2 * c + m / a) by(nonlinear_arith) requires a > 0;
+    let x = m / a;
+    assert((2 * c + x) % 2 == x % 2);
+}
+
+proof fn lemma_bit_allones(k: nat, t: nat)
+    requires k >= 1
+    ensures bit((pow2(k) - 1) as nat, t) == (t < k)
+{
+    lemma_pow2_pos(t); lemma_pow2_pos(k);
+    let a = pow2(t);
+    if t < k {
+        lemma_pow2_adds(t, (k - t) as nat);
+        lemma_pow2_unfold((k - t) as nat);
+        let c = pow2((k - t - 1) as nat);
+        lemma_pow2_pos((k - t - 1) as nat);
+        // 2^k - 1 = a*(2c) - 1 = a*(2c-1) + (a-1)
+        assert(((a * (2 * c) - 1) as nat) / a == 2 * c - 1) by(nonlinear_arith) requires a > 0, c > 0;
+        assert((2 * c - 1) % 2 == 1) by(nonlinear_arith) requires c > 0;
+    } else {
+        if t > k { lemma_pow2_strictly_increases(k, t); }
+        assert(((pow2(k) - 1) as nat) / a == 0) by(nonlinear_arith) requires pow2(k) <= a, pow2(k) >= 1;
+    }
+}
+
+// bit ht(pos) of the peak map is set iff pos is a right child
+proof fn lemma_right_bit(pos: nat, j: nat)
+    requires pos < tsize(j)
+    ensures bit(loop_map(pos, j), ht(pos, j)) == is_right(pos, j)
+    decreases j
+{
+    lemma_psize(j); lemma2_to64();
+    if j == 0 {
+        assert(loop_map(pos, 0) == 0);
+        assert(0nat / 1 == 0);
+    } else {
+        lemma_psize((j - 1) as nat);
+        lemma_pow2_unfold(j);
+        if pos == tsize(j) - 1 {
+            lemma_bmap(j, 0);
+            lemma_bit_allones(j, j);
+        } else if pos < tsize((j - 1) as nat) {
+            lemma_right_bit(pos, (j - 1) as nat);
+        } else {
+            let p = (pos - tsize((j - 1) as nat)) as nat;
+            lemma_ht_bound(p, (j - 1) as nat);
+            if p == tsize((j - 1) as nat) - 1 {
+                lemma_bmap((j - 1) as nat, 0);
+                assert(loop_map(pos, j) == pow2(j) - 1);
+                lemma_bit_allones(j, (j - 1) as nat);
+            } else {
+                lemma_right_bit(p, (j - 1) as nat);
+                if j - 1 > 0 { } 
+                lemma_bit_add_high(loop_map(p, (j - 1) as nat), ht(p, (j - 1) as nat), (j - 1) as nat);
+            }
+        }
+    }
+}
+
+// explicit-tree parent/sibling in closed form
+proof fn lemma_family(pos: nat, h: nat)
+    requires h > 0, pos < tsize(h) - 1
+    ensures
+        is_right(pos, h) ==> parent(pos, h) == pos + 1 && sibling(pos, h) + pow2(ht(pos, h) + 1) == pos + 1,
+        !is_right(pos, h) ==> parent(pos, h) == pos + pow2(ht(pos, h) + 1) && sibling(pos, h) == parent(pos, h) - 1,
+        parent(pos, h) < tsize(h), sibling(pos, h) < tsize(h) - 1,
+        ht(parent(pos, h), h) == ht(pos, h) + 1, ht(sibling(pos, h), h) == ht(pos, h),
+    decreases h
+{
+    lemma_psize(h); lemma_psize((h - 1) as nat); lemma2_to64();
+    lemma_pow2_unfold(h); lemma_pow2_pos((h - 1) as nat);
+    let ts = tsize((h - 1) as nat);
+    if pos == ts - 1 {
+        // left child of the root
+        lemma_ht_root(pos, (h - 1) as nat);
+        lemma_ht_root((tsize(h) - 2 - ts) as nat, (h - 1) as nat);
+        lemma_isright_root(pos, (h - 1) as nat);
+    } else if pos == tsize(h) - 2 {
+        lemma_ht_root((pos - ts) as nat, (h - 1) as nat);
+        lemma_ht_root((ts - 1) as nat, (h - 1) as nat);
+    } else if pos < ts {
+        assert(h - 1 > 0) by { if h == 1 { assert(ts == 1); } }
+        lemma_family(pos, (h - 1) as nat);
+    } else {
+        let p = (pos - ts) as nat;
+        assert(h - 1 > 0) by { if h == 1 { assert(ts == 1); } }
+        lemma_family(p, (h - 1) as nat);
+    }
+}
+
+proof fn lemma_ht_root(pos: nat, h: nat)
+    requires pos == tsize(h) - 1
+    ensures ht(pos, h) == h
+{ lemma_psize(h); lemma2_to64(); if h == 0 { } }
+
+proof fn lemma_isright_root(pos: nat, h: nat)
+    requires pos == tsize(h) - 1
+    ensures !is_right(pos, h)
+{ }
+
+proof fn lemma_ht_lt(pos: nat, k: nat)
+    requires 1 <= k <= 64, pos < pow2(k)
+    ensures ht(pos, 64) < k
+{
+    lemma_psize(k); lemma_psize((k - 1) as nat); lemma2_to64(); lemma_pow2_unfold(k);
+    if pos < tsize((k - 1) as nat) {
+        lemma_ht_mono(pos, (k - 1) as nat, 64);
+        lemma_ht_bound(pos, (k - 1) as nat);
+        if k - 1 > 0 && pos == tsize((k - 1) as nat) - 1 { } 
+    } else {
+        // pos == 2^k - 1 == tsize(k-1): first leaf of the right subtree of the height-k tree
+        assert(pos == tsize((k - 1) as nat));
+        if k < 64 {
+            assert(pos < tsize(k)) by { lemma_psize(k); lemma_pow2_unfold(k + 1); lemma_pow2_pos(k); }
+            lemma_ht_mono(pos, k, 64);
+        } else {
+            lemma_psize(64);
+            lemma_pow2_unfold(65); lemma_pow2_pos(64);
+        }
+        lemma_ht_zero_first((k - 1) as nat);
+    }
+}
+
+// position 0 of any perfect tree is a leaf
+proof fn lemma_ht_zero_first(h: nat)
+    ensures ht(0, h) == 0
+    decreases h
+{
+    if h > 0 { lemma_psize(h); lemma_psize((h - 1) as nat); lemma_pow2_pos(h); lemma_pow2_unfold(h + 1); lemma_pow2_unfold(h); lemma_pow2_pos((h-1) as nat); lemma_ht_zero_first((h - 1) as nat); }
+}
+
+proof fn lemma_bit_test(m: u64, h: u64)
+    requires h < 64
+    ensures ((m & (1u64 << h)) != 0) == bit(m as nat, h as nat)
+{
+    assert(((m & (1u64 << h)) != 0) == (((m >> h) & 1u64) == 1u64)) by(bit_vector) requires h < 64;
+    let x = m >> h;
+    assert((x & 1u64) == x % 2) by(bit_vector);
+    lemma_u64_shr_is_div(m, h);
+}
+
+//@ extract core/src/core/pmmr/pmmr.rs :: fn family
+//@   requires:
+//@+    pos0 < 0x4000_0000_0000_0000u64,
+//@   ensures:
+//@+    r.0 as nat == parent(pos0 as nat, 64),
+//@+    r.1 as nat == sibling(pos0 as nat, 64),
+//@+    ht(r.0 as nat, 64) == ht(pos0 as nat, 64) + 1,
+//@+    ht(r.1 as nat, 64) == ht(pos0 as nat, 64),
+//@   at_start:
+//@+    proof {
+//@+        lemma2_to64(); lemma_psize(64); lemma_pow2_unfold(65); lemma_pow2_unfold(64); lemma_pow2_unfold(63);
+//@+        lemma_ht_lt(pos0 as nat, 62);
+//@+        lemma_family(pos0 as nat, 64);
+//@+        lemma_right_bit(pos0 as nat, 64);
+//@+        let t = ht(pos0 as nat, 64);
+//@+        lemma_shl2(t as u64);
+//@+        lemma_pow2_strictly_increases(t + 1, 63);
+//@+        lemma_pow2_unfold(t + 1);
+//@+        assert forall|m: u64| ((m & (1u64 << (t as u64))) != 0) == bit(m as nat, t) by { lemma_bit_test(m, t as u64); }
+//@+    }
+//@ end
+
+//@ extract core/src/core/pmmr/pmmr.rs :: fn is_left_sibling
+//@   ensures:
+//@+    r == !is_right(pos0 as nat, 64),
+//@   at_start:
+//@+    proof {
+//@+        lemma2_to64(); lemma_psize(64);
+//@+        lemma_right_bit(pos0 as nat, 64);
+//@+        let t = ht(pos0 as nat, 64);
+//@+        lemma_ht_bound(pos0 as nat, 64);
+//@+        assert forall|m: u64| ((m & (1u64 << (t as u64))) != 0) == bit(m as nat, t) by { lemma_bit_test(m, t as u64); }
+//@+    }
+//@ end
+//@ canary family: r.0 == r.1
 
 //@ extract core/src/core/pmmr/pmmr.rs :: fn bintree_postorder_height
 //@   ensures:
@@ -255,7 +806,7 @@ proof fn lemma_ht_small(pos: nat)
 //@ extract core/src/core/pmmr/pmmr.rs :: fn bintree_rightmost
 //@   ensures:
 //@+    r as nat == pos0 as nat - ht(pos0 as nat, 64),
-//@   before `pos0 - bintree_postorder_height(pos0)`:
+//@   at_start:
 //@+    proof { lemma_psize(64); lemma2_to64(); lemma_subtree_fits(pos0 as nat, 64); }
 //@ end
 
@@ -264,10 +815,10 @@ proof fn lemma_ht_small(pos: nat)
 //@+    r as nat == pos0 as nat + 2 - pow2(ht(pos0 as nat, 64) + 1),
 //@   requires:
 //@+    pos0 <= u64::MAX - 2,
-//@   before `pos0 + 2 - (2 << height)`:
+//@   at_start:
 //@+    proof { lemma_psize(64); lemma2_to64(); lemma_subtree_fits(pos0 as nat, 64);
 //@+            lemma_ht_small(pos0 as nat);
-//@+            lemma_u64_shl_is_mul(2, height); }
+//@+            lemma_shl2(ht(pos0 as nat, 64) as u64); }
 //@ end
 
 //@ extract core/src/core/pmmr/pmmr.rs :: fn bintree_range
@@ -277,8 +828,8 @@ proof fn lemma_ht_small(pos: nat)
 //@+    r.start as nat == pos0 as nat + 2 - pow2(ht(pos0 as nat, 64) + 1),
 //@+    r.end == pos0 + 1,
 //@+    r.end - r.start == tsize(ht(pos0 as nat, 64)),
-//@   before `let leftmost = pos0 + 2 - (2 << height);`:
+//@   at_start:
 //@+    proof { lemma_psize(64); lemma2_to64(); lemma_subtree_fits(pos0 as nat, 64);
 //@+            lemma_ht_small(pos0 as nat);
-//@+            lemma_u64_shl_is_mul(2, height); }
+//@+            lemma_shl2(ht(pos0 as nat, 64) as u64); }
 //@ end
